@@ -8,9 +8,10 @@ namespace Mat
 variable {K : Type}
 variable [Add K] [Sub K] [Mul K] [Neg K] [Zero K] [One K] [BEq K] [ScalarExt K]
 
-/-- `max_abs_in_column(col, start_row)`; note the initial `max_index = 0` of the source -/
+/-- `max_abs_in_column(col, start_row)`: the search starts at the diagonal row (`max_index = start_row`;
+    the original `max_index = 0` exchanged an already eliminated row in on an all-zero sub-column: repaired) -/
 def maxAbsInColumn (m : Mat K) (col start : Nat) : Res Nat := do
-  let (idx, _) ← forM' start m.rows ((0 : Nat), (0 : K)) (fun (idx, mx) i => do
+  let (idx, _) ← forM' start m.rows ((start : Nat), (0 : K)) (fun (idx, mx) i => do
     let x ← m.get i col
     let ax := ScalarExt.mag x
     if ScalarExt.lt mx ax then pure (i, ax) else pure (idx, mx))
